@@ -34,6 +34,15 @@ def gen_config(rng, want_error=None):
         segs.append({"name": "s%d" % i, "start": start, "pc": rng.choice([None, None, None, 0x0200, 0x9000]), "write": rng.random() > 0.15,
                      "bank": (rng.choice(banks)["name"] if banks else None), "data": data, "start_expr": None})
         cursor = max(cursor, start + n)
+    # banks with create-segment = true bring a segment of their own name (default start $2000), defined where the bank is
+    implicit = []
+    for b in banks:
+        if rng.random() < 0.2:
+            b["create_segment"] = True
+            n = rng.randrange(1, 16)
+            data = bytes((val + k) & 255 for k in range(n))
+            val = (val + n + 7) & 255
+            implicit.append({"name": b["name"], "start": 0x2000, "pc": None, "write": True, "bank": b["name"], "data": data, "start_expr": None, "implicit": True})
     # dependencies between segments: start = segments.sK.end (+ gap)
     for i in range(1, ns):
         if rng.random() < 0.2:
@@ -43,6 +52,7 @@ def gen_config(rng, want_error=None):
             if new_start + len(segs[i]["data"]) <= 0x10000:
                 segs[i]["start"] = new_start
                 segs[i]["start_expr"] = "segments.s%d.end" % j + (" + %d" % gap if gap else "")
+    segs = implicit + segs
     cfg = {"banks": banks, "segments": segs, "format": rng.choice([None, None, "prg", "bin"]), "output_filename": rng.choice([None, None, "out.dat"]), "entry_stem": "main"}
     # a bank may also name the default output file explicitly (it then shares that file with the banks that name nothing)
     if len(banks) >= 2:
@@ -62,6 +72,7 @@ def gen_config(rng, want_error=None):
                 b["size"] = (hi - lo) + rng.choice([0, 0, 1, 16, 256])
             else:
                 b["size"] = rng.choice([0, 4, 16])
+    explicit = [x for x in segs if not x.get("implicit")]
     if want_error == "oversize" and banks:
         b = rng.choice(banks)
         mine = [s for s in segs if s["bank"] == b["name"] and s["write"]]
@@ -77,11 +88,11 @@ def gen_config(rng, want_error=None):
         hi = max([s["start"] + len(s["data"]) for s in mine] or [0])
         b["size"] = hi - lo + rng.randrange(1, 9)
     elif want_error == "unknown-bank":
-        rng.choice(segs)["bank"] = "nope"
+        rng.choice(explicit)["bank"] = "nope"
     elif want_error == "no-bank" and banks and len(segs) > 1:
-        rng.choice(segs)["bank"] = None
+        rng.choice(explicit)["bank"] = None
     elif want_error == "beyond-ffff":
-        s = rng.choice(segs)
+        s = rng.choice(explicit)
         s["start"] = 0x10000 - rng.randrange(0, len(s["data"]))
         s["start_expr"] = None
     elif want_error == "prg-multibank" and len(banks) > 1:
@@ -100,8 +111,12 @@ def render_cfg(cfg):
             lines.append("    fill = $%02x" % b["fill"])
         if b["filename"]:
             lines.append('    filename = "%s"' % b["filename"])
+        if b.get("create_segment"):
+            lines.append("    create-segment = true")
         lines.append("}")
     for s in cfg["segments"]:
+        if s.get("implicit"):
+            continue
         lines.append(".define segment {")
         lines.append('    name = "%s"' % s["name"])
         lines.append("    start = %s" % (s["start_expr"] or "$%04x" % s["start"]))
